@@ -52,6 +52,9 @@ def run(ctx) -> None:
 
     for kind in ("add", "remove"):
         ctx.reuse(f"C02.guard-{kind}", _c04.once, kind)
+    from . import objmodel
+
+    ctx.guard("C02.ctor", objmodel.labware_model, "C02.ctor")
     ctx.guard("C02.ctor", ctor)
     # a refusal raised inside a `with` block reaches the caller: __exit__ returns nothing truthy
     from . import c03 as _c03
@@ -206,9 +209,14 @@ def reflection(ctx) -> None:
     rule = "C02.reflection"
     bad = {"setattr", "exec", "eval", "vars", "__setattr__", "__dict__", "delattr"}
     n = 0
+    PROTOCOL = ("__copy__", "__deepcopy__", "__getstate__", "__setstate__", "__reduce__", "__reduce_ex__")
     for m in ctx.prog.modules.values():
+        # whole-object copies in the copy / pickle protocol methods do not write single attributes: rules/objmodel.py judges them
+        exempt = {id(x) for fn_ in ast.walk(m.tree) if isinstance(fn_, ast.FunctionDef) and fn_.name in PROTOCOL for x in ast.walk(fn_)}
         for sub in ast.walk(m.tree):
             name = None
+            if id(sub) in exempt and not (isinstance(sub, ast.Call) and isinstance(sub.func, ast.Name) and sub.func.id in ("exec", "eval")):
+                continue
             if isinstance(sub, ast.Call) and isinstance(sub.func, ast.Name) and sub.func.id in bad:
                 name = sub.func.id
             elif isinstance(sub, ast.Attribute) and sub.attr in bad:
